@@ -5,43 +5,75 @@
   response parses completely); a message with a non-IN/A question, a truncated message, or a
   response (QR=1) is not answered.
 
-  Precondition (DESIGN.md): label bytes contain no 0x00 — the responder ends a name at the FIRST zero
-  byte (`Spec.labelsNoNul`, built into `Spec.inAQuery` / `Spec.hasNonInA` / `Spec.dnsTruncated`);
-  `nul_in_label_*` below show the statement is false without it.
+  For ALL label layouts, whatever octets the labels contain.  Until the repair of the DNS dissectors
+  (`src/proto/dns/{query,rr}.rs` read a name "up to the first 0x00 octet") this was proved only under the
+  precondition "no 0x00 inside a label"; the dissectors now read names label by label (a length octet,
+  then that many octets of any value; the name ends at a zero LENGTH octet) and the precondition is gone:
+  the `…_full` theorems below are stated over `DnsFix.inAQueryAny` / `hasNonInAAny` / `dnsTruncatedAny`
+  (`Proofs/DnsFix/Full.lean`), which are `Spec.inAQuery` / `Spec.hasNonInA` / `Spec.dnsTruncated` with the
+  `Spec.labelsNoNul` conjunct (resp. the "0x00 inside a label ⇒ .bad" line of `Spec.scanName`) removed.
+  `Spec/Dns.lean` itself still carries that restriction; the theorems under the old names
+  (`dns_reply_faithful`, `dns_c14`, `dns_c14_silent`, …: hypotheses in the Spec's vocabulary) are
+  corollaries of the `…_full` ones, since each Spec predicate implies its unrestricted twin.
+
+  Length octets ≥ 64 (RFC 1035 reserves the two top bits): the Spec's parser rejects them, the responder
+  treats them as plain label lengths — such messages are outside every hypothesis of C14 (§1, §7).
 -/
 import Masscanned.Proofs.C14.Parse
 import Masscanned.Proofs.C14.Reparse
 import Masscanned.Model.Dispatch
 open Masscanned
 namespace Masscanned.C14
+open Masscanned.DnsFix
 
-/-! ### 1. bridge: the Spec's RFC 1035 name reader and the model's first-zero-byte reader -/
+/-! ### 1. bridge: the Spec's RFC 1035 name reader and the model's label-wise reader -/
 
-/-- C14.1a If `Spec.readName` reads the name `n` from `p` leaving `r`, and no label byte of `n` is 0x00,
-    then the model's question reader ends the name at the same place: its question is `n`, then the
-    two 16-bit fields, and it fails exactly when fewer than 4 bytes follow the name. -/
-theorem bridge_name {fuel : Nat} {p n r : Bytes} (h : Spec.readName fuel [] p = some (n, r))
-    (hn : Spec.labelsNoNul 256 n = true) :
+/-- C14.1a If `Spec.readName` reads the name `n` from `p` leaving `r` — labels of 1..63 octets of any
+    value, 0x00 included, at most 255 octets in total — then the model's question reader ends the name
+    at the same place: its question is `n`, then the two 16-bit fields, and it fails exactly when fewer
+    than 4 bytes follow the name. -/
+theorem bridge_name {fuel : Nat} {p n r : Bytes} (h : Spec.readName fuel [] p = some (n, r)) :
     dnsReadQ [] p =
       if r.length < 4 then none
       else some ({ name := n, qtype := Spec.be16 r 0, qclass := Spec.be16 r 2 }, r.drop 4) :=
-  dnsReadQ_of_readName h hn
+  dnsReadQ_of_readName h
 
 /-- C14.1b the same for a whole question section: same questions, same remaining bytes -/
 theorem bridge_questions {k : Nat} {p r : Bytes} {qs : List Spec.DQ}
-    (h : Spec.readQuestions k p = some (qs, r)) (hn : ∀ q ∈ qs, Spec.labelsNoNul 256 q.name = true) :
+    (h : Spec.readQuestions k p = some (qs, r)) :
     dnsReadQs k p = some (qs.map toQ, r) :=
-  dnsReadQs_of_readQuestions k p qs r h hn
+  dnsReadQs_of_readQuestions k p qs r h
+
+/-- C14.1c … and for the name of a resource record (answer section of a message) -/
+theorem bridge_rr_name {fuel : Nat} {p n r : Bytes} (h : Spec.readName fuel [] p = some (n, r)) :
+    dnsSkipRR p =
+      if r.length < 10 then none
+      else if (r.drop 10).length < Spec.be16 r 8 then none
+      else some ((r.drop 10).drop (Spec.be16 r 8)) :=
+  dnsSkipRR_of_readName h
+
+/-- C14.1d a length octet ≥ 64: the Spec's reader rejects the name, both truncation scanners say `.bad`
+    (so the message is neither an `inAQuery`, nor `hasNonInA`, nor — because of this name —
+    "truncated"), while the responder's readers take ANY non-zero octet `l` as a plain length: they copy
+    (skip) `l` octets and go on with the next length octet. -/
+theorem long_label (l : UInt8) (hl : l.toNat > 63) (t : Bytes) :
+    (∀ fuel acc, Spec.readName fuel acc (l :: t) = none) ∧
+    (∀ fuel, Spec.scanName (fuel + 1) (l :: t) = .bad ∧ scanNameAny (fuel + 1) (l :: t) = .bad) :=
+  ⟨fun fuel acc => readName_long_label fuel acc l t hl, fun fuel => scanName_long_label fuel l t hl⟩
+
+theorem any_label (l : UInt8) (hl : l ≠ 0) (lab : Bytes) (hlab : lab.length = l.toNat) (acc t : Bytes) :
+    dnsReadQ acc (l :: (lab ++ t)) = dnsReadQ (acc ++ l :: lab) t ∧ dnsSkipRR (l :: (lab ++ t)) = dnsSkipRR t :=
+  ⟨dnsReadQ_any_label l hl lab hlab acc t, dnsSkipRR_any_label l hl lab hlab t⟩
 
 /-! ### 2. faithful answer -/
 
-/-- C14.2 every IN/A query (any ID, any flag word with QR=0, any number of questions, any label layout
-    with NUL-free labels, nothing after the question section) sent to the IPv4 address `a` is parsed by
-    the responder and answered, and the answer is the one C14 demands (`Spec.dnsReplyOk`). -/
-theorem dns_reply_faithful {p a : Bytes} {q : Spec.DMsg} {ci : ClientInfo}
-    (hq : Spec.inAQuery p = some q) (hd : ci.ipDst = some (.v4 a)) (ha : a.length = 4) :
+/-- C14.2 every IN/A query (any ID, any flag word with QR=0, any number of questions, any label layout,
+    any octets inside the labels, nothing after the question section) sent to the IPv4 address `a` is
+    parsed by the responder and answered, and the answer is the one C14 demands (`Spec.dnsReplyOk`). -/
+theorem dns_reply_faithful_full {p a : Bytes} {q : Spec.DMsg} {ci : ClientInfo}
+    (hq : inAQueryAny p = some q) (hd : ci.ipDst = some (.v4 a)) (ha : a.length = 4) :
     ∃ m r, dnsParse p = some m ∧ dnsRepl ci m = some r ∧ Spec.dnsReplyOk q r a = true := by
-  unfold Spec.inAQuery at hq
+  unfold inAQueryAny at hq
   split at hq
   · cases hq
   · rename_i m' hp
@@ -50,14 +82,14 @@ theorem dns_reply_faithful {p a : Bytes} {q : Spec.DMsg} {ci : ClientInfo}
       simp only [Option.some.injEq] at hq
       subst hq
       obtain ⟨hqr, han, hns, har, hrest, hall⟩ := hc
-      have hall' : ∀ x ∈ m'.qd, x.qtype = 1 ∧ x.qclass = 1 ∧ Spec.labelsNoNul 256 x.name = true := by
+      have hall' : ∀ x ∈ m'.qd, x.qtype = 1 ∧ x.qclass = 1 := by
         intro x hx
         simpa using (List.all_eq_true.mp hall) x hx
       obtain ⟨hl, hid, hfl, hnsc, harc, hqdl, hanl, r0, hqs, hrr⟩ := parseDns_some hp
       have han0 : Spec.be16 p 6 = 0 := by
         rw [← hanl]; simpa using han
       -- the model parses the query
-      have hmq := dnsReadQs_of_readQuestions _ _ _ _ hqs (fun x hx => (hall' x hx).2.2)
+      have hmq := dnsReadQs_of_readQuestions _ _ _ _ hqs
       have hparse : dnsParse p = some { id := m'.id, flags := m'.flags, qd := m'.qd.map toQ,
                                         qdcount := m'.qd.length } := by
         rw [dnsParse_eq p hl, hmq]
@@ -72,7 +104,7 @@ theorem dns_reply_faithful {p a : Bytes} {q : Spec.DMsg} {ci : ClientInfo}
         · simp only [List.all_map, List.all_eq_true]
           intro x hx
           have := hall' x hx
-          simp [toQ, this.1, this.2.1, dnsTypeNorm, dnsClassNorm]
+          simp [toQ, this.1, this.2, dnsTypeNorm, dnsClassNorm]
       refine ⟨_, r, hparse, hr, ?_⟩
       have hrdata : rdataOf ci = a := by simp [rdataOf, hd]
       have hwf : ∀ x ∈ m'.qd.map toQ, IsName x.name ∧ x.name.length ≤ 255 := by
@@ -97,19 +129,26 @@ theorem dns_reply_faithful {p a : Bytes} {q : Spec.DMsg} {ci : ClientInfo}
       simp [ansRR, toQ]
     · cases hq
 
+/-- C14.2 in the Spec's vocabulary (`Spec.inAQuery` still demands `Spec.labelsNoNul`): a corollary -/
+theorem dns_reply_faithful {p a : Bytes} {q : Spec.DMsg} {ci : ClientInfo}
+    (hq : Spec.inAQuery p = some q) (hd : ci.ipDst = some (.v4 a)) (ha : a.length = 4) :
+    ∃ m r, dnsParse p = some m ∧ dnsRepl ci m = some r ∧ Spec.dnsReplyOk q r a = true :=
+  dns_reply_faithful_full (inAQuery_any hq) hd ha
+
 /-! ### 3–5. silence -/
 
-/-- C14.3 a query containing a question that is not IN/A is not answered -/
-theorem dns_non_ina_silent {p : Bytes} (ci : ClientInfo) (h : Spec.hasNonInA p = true) :
+/-- C14.3 a query containing a question that is not IN/A is not answered (whatever octets the labels
+    of its names contain) -/
+theorem dns_non_ina_silent_full {p : Bytes} (ci : ClientInfo) (h : hasNonInAAny p = true) :
     (dnsParse p).bind (dnsRepl ci) = none := by
-  unfold Spec.hasNonInA at h
+  unfold hasNonInAAny at h
   split at h
   · rename_i m' hp
-    simp only [Bool.and_eq_true, decide_eq_true_eq, List.any_eq_true, List.all_eq_true,
+    simp only [Bool.and_eq_true, decide_eq_true_eq, List.any_eq_true,
       Bool.not_eq_true', decide_eq_false_iff_not] at h
-    obtain ⟨⟨_, x, hx, hxn⟩, hnul⟩ := h
+    obtain ⟨_, x, hx, hxn⟩ := h
     obtain ⟨hl, _, _, _, _, _, _, r0, hqs, _⟩ := parseDns_some hp
-    have hmq := dnsReadQs_of_readQuestions _ _ _ _ hqs hnul
+    have hmq := dnsReadQs_of_readQuestions _ _ _ _ hqs
     cases hm : dnsParse p with
     | none => rfl
     | some m =>
@@ -126,15 +165,20 @@ theorem dns_non_ina_silent {p : Bytes} (ci : ClientInfo) (h : Spec.hasNonInA p =
         exact hxn (hall (toQ x) (List.mem_map_of_mem hx))
   · cases h
 
-/-- C14.4 a truncated message (the bytes end before the sections announced in the header are complete)
-    is not even parsed, hence not answered -/
-theorem dns_truncated_silent {p : Bytes} (h : Spec.dnsTruncated p = true) : dnsParse p = none := by
-  unfold Spec.dnsTruncated at h
+/-- C14.3 in the Spec's vocabulary -/
+theorem dns_non_ina_silent {p : Bytes} (ci : ClientInfo) (h : Spec.hasNonInA p = true) :
+    (dnsParse p).bind (dnsRepl ci) = none :=
+  dns_non_ina_silent_full ci (hasNonInA_any h)
+
+/-- C14.4 a truncated message (the bytes end before the sections announced in the header are complete;
+    the labels seen so far are legal — 1..63 octets of any value) is not even parsed, hence not answered -/
+theorem dns_truncated_silent_full {p : Bytes} (h : dnsTruncatedAny p = true) : dnsParse p = none := by
+  unfold dnsTruncatedAny at h
   split at h
   · rename_i hl; exact dnsParse_short p hl
   · rename_i hl
     rw [dnsParse_eq p (by omega)]
-    obtain ⟨s1, s2⟩ := scanQuestions_spec (Spec.be16 p 4) (p.drop 12)
+    obtain ⟨s1, s2⟩ := scanQuestionsAny_spec (Spec.be16 p 4) (p.drop 12)
     split at h
     · rename_i hs; rw [s1 hs]
     · cases h
@@ -143,8 +187,12 @@ theorem dns_truncated_silent {p : Bytes} (h : Spec.dnsTruncated p = true) : dnsP
       rw [hqs]
       simp only
       split at h
-      · rename_i hs2; rw [(scanRRs_spec _ _).1 hs2]
+      · rename_i hs2; rw [(scanRRsAny_spec _ _).1 hs2]
       · cases h
+
+/-- C14.4 in the Spec's vocabulary -/
+theorem dns_truncated_silent {p : Bytes} (h : Spec.dnsTruncated p = true) : dnsParse p = none :=
+  dns_truncated_silent_full (dnsTruncated_any h)
 
 /-- C14.5 a response (QR=1) is never answered (used by C12: no reply loops between responders) -/
 theorem dns_qr1_silent {p : Bytes} (ci : ClientInfo) (h : Spec.be16 p 2 / 32768 = 1) :
@@ -157,9 +205,9 @@ theorem dns_qr1_silent {p : Bytes} (ci : ClientInfo) (h : Spec.be16 p 2 / 32768 
 /-! ### 6. every reply parses completely -/
 
 /-- C14.6 whenever the responder answers a message it parsed, and the names it echoes are RFC 1035 names
-    (`Spec.readName` reads each of them entirely — this is the same precondition as above: a name the
-    responder cut at its first zero byte is a name iff no label contained that zero), the reply parses
-    with the Spec's parser, all counts matching the records present: nothing is left over, there are as
+    (`Spec.readName` reads each of them entirely: the responder's label-wise reader delimits the same
+    labels, but also accepts labels longer than 63 octets and names longer than 255, which it echoes as
+    they are — `long_label_reply_unparseable` below), the reply parses with the Spec's parser, all counts matching the records present: nothing is left over, there are as
     many questions and as many answers as the query had questions, no authority/additional records. -/
 theorem dns_reply_counts {p r : Bytes} {m : DnsMsg} {ci : ClientInfo}
     (hm : dnsParse p = some m) (hr : dnsRepl ci m = some r)
@@ -186,7 +234,7 @@ theorem dns_reply_counts {p r : Bytes} {m : DnsMsg} {ci : ClientInfo}
   · simp [List.map_map, ansRR, Function.comp_def]
 
 /-- C14.6' without any precondition on the names, every reply parses completely with the responder's
-    own parser (section counts match the records present under the first-zero-byte reading of names;
+    own parser (section counts match the records present under its label-wise reading of names;
     this is what the Rust unit test `dispatch_dns` checks): same ID, same questions, QR=1 — so by
     `dns_qr1_silent` a reply is never answered in turn. -/
 theorem dns_reply_reparses {p r : Bytes} {m : DnsMsg} {ci : ClientInfo}
@@ -204,10 +252,10 @@ theorem dns_reply_reparses {p r : Bytes} {m : DnsMsg} {ci : ClientInfo}
   unfold dnsRepl
   rw [if_pos (replyFlags_qr _)]
 
-/-- the well-formedness precondition of `dns_reply_counts` holds for every `Spec.inAQuery` -/
-theorem inAQuery_names_wf {p : Bytes} {q : Spec.DMsg} (hq : Spec.inAQuery p = some q) :
+/-- the well-formedness precondition of `dns_reply_counts` holds for every IN/A query -/
+theorem inAQuery_names_wf_full {p : Bytes} {q : Spec.DMsg} (hq : inAQueryAny p = some q) :
     ∀ x ∈ q.qd, Spec.readName (x.name.length + 1) [] x.name = some (x.name, []) := by
-  unfold Spec.inAQuery at hq
+  unfold inAQueryAny at hq
   split at hq
   · cases hq
   · rename_i m' hp
@@ -221,39 +269,58 @@ theorem inAQuery_names_wf {p : Bytes} {q : Spec.DMsg} (hq : Spec.inAQuery p = so
       simpa using this
     · cases hq
 
-/-! ### 7. why the precondition is needed -/
+theorem inAQuery_names_wf {p : Bytes} {q : Spec.DMsg} (hq : Spec.inAQuery p = some q) :
+    ∀ x ∈ q.qd, Spec.readName (x.name.length + 1) [] x.name = some (x.name, []) :=
+  inAQuery_names_wf_full (inAQuery_any hq)
 
-/-- a query whose only label `A\0\0\1\0\1` (6 bytes) contains NUL bytes -/
+/-! ### 7. 0x00 inside a label (no longer a precondition); labels longer than 63 octets -/
+
+/-- a query whose only label `A\0\0\1\0\1` (6 bytes) contains NUL bytes — the witness that, before the
+    repair, made `dns_reply_faithful` false without `labelsNoNul` (the responder saw the 3-byte name
+    `\6A\0`, type 1, class 1 and five trailing bytes) -/
 def nulQuery : Bytes :=
   [0x12, 0x34, 1, 0, 0, 1, 0, 0, 0, 0, 0, 0,   6, 0x41, 0, 0, 1, 0, 1, 0,   0, 1, 0, 1]
 
-/-- C14.7 with a NUL inside a label the two parsers split the message differently: the RFC 1035 reading
-    is one IN/A question for the 8-byte name `\6A\0\0\1\0\1\0`, the responder sees the 3-byte name
-    `\6A\0` followed by type 1, class 1 and five trailing bytes … -/
-theorem nul_in_label_parse_differs :
+/-- C14.7 the two parsers now split that message the same way — one IN/A question for the 8-byte name
+    `\6A\0\0\1\0\1\0` — although `Spec.labelsNoNul` is false of it (it is an `inAQueryAny`) … -/
+theorem nul_in_label_parse_agrees :
     (Spec.parseDns nulQuery).map (fun m => m.qd) = some [{ name := [6, 0x41, 0, 0, 1, 0, 1, 0], qtype := 1, qclass := 1 }] ∧
-    (dnsParse nulQuery).map (fun m => m.qd) = some [{ name := [6, 0x41, 0], qtype := 1, qclass := 1 }] ∧
-    Spec.labelsNoNul 256 [6, 0x41, 0, 0, 1, 0, 1, 0] = false := by decide +kernel
+    (dnsParse nulQuery).map (fun m => m.qd) = some [{ name := [6, 0x41, 0, 0, 1, 0, 1, 0], qtype := 1, qclass := 1 }] ∧
+    Spec.labelsNoNul 256 [6, 0x41, 0, 0, 1, 0, 1, 0] = false ∧ (inAQueryAny nulQuery).isSome = true := by
+  decide +kernel
 
-/-- … and it answers — `nulQuery` is a QR=0 message made of one IN/A question and nothing else — with a
-    message that is not the faithful reply (so `dns_reply_faithful` is false without `labelsNoNul`) -/
-theorem nul_in_label_reply_unfaithful :
-    (Spec.parseDns nulQuery).any (fun q =>
-      decide (q.flags / 32768 = 0) && q.an.isEmpty && q.rest.isEmpty && decide (q.nscount = 0) &&
-      decide (q.arcount = 0) && q.qd.all (fun x => x.qtype = 1 ∧ x.qclass = 1) &&
+/-- … and the answer is the faithful one -/
+theorem nul_in_label_reply_faithful :
+    (inAQueryAny nulQuery).any (fun q =>
       ((dnsParse nulQuery).bind (dnsRepl { ipDst := some (.v4 [192, 0, 2, 7]) })).any (fun r =>
-        !Spec.dnsReplyOk q r [192, 0, 2, 7])) = true := by decide +kernel
+        Spec.dnsReplyOk q r [192, 0, 2, 7])) = true := by decide +kernel
 
-/-- a message carrying a name that is not an RFC 1035 name (label length 5, one byte present) -/
+/-- a message whose name has a 64-octet label (`\x40` then 64 × `A`, root), type A, class IN -/
+def longLabelQuery : Bytes :=
+  [0x12, 0x34, 1, 0, 0, 1, 0, 0, 0, 0, 0, 0] ++ (64 :: List.replicate 64 0x41) ++ [0,   0, 1, 0, 1]
+
+/-- the responder reads the length octet 64 as a plain length, echoes the name and answers; its reply
+    does not parse with the Spec's RFC 1035 parser: the precondition of `dns_reply_counts` is needed.
+    The query itself is outside C14: not parseable by the Spec, hence neither an IN/A query nor one with
+    a non-IN/A question, and not "truncated" (both scanners say `.bad`) — C14 says nothing about it. -/
+theorem long_label_reply_unparseable :
+    ((dnsParse longLabelQuery).bind (dnsRepl { ipDst := some (.v4 [192, 0, 2, 7]) })).any (fun r =>
+      (Spec.parseDns r).isNone) = true ∧
+    (Spec.parseDns longLabelQuery).isNone = true ∧ (inAQueryAny longLabelQuery).isNone = true ∧
+    hasNonInAAny longLabelQuery = false ∧ dnsTruncatedAny longLabelQuery = false ∧
+    Spec.dnsTruncated longLabelQuery = false := by
+  decide +kernel
+
+/-- a message carrying a label of announced length 5 with fewer octets present than announced.  Before
+    the repair the responder cut the name at the first 0x00 and answered (with an unparseable reply); the
+    label-wise reader runs out of input inside the second "label" and the message is not parsed at all.
+    The data ends inside a label: `dnsTruncatedAny` holds, so this silence is an instance of
+    `dns_truncated_silent_full`. -/
 def malformedQuery : Bytes := [0x12, 0x34, 1, 0, 0, 1, 0, 0, 0, 0, 0, 0,   5, 0x41, 0,   0, 1, 0, 1]
 
-/-- the responder echoes that name all the same, and its reply does not parse: the precondition of
-    `dns_reply_counts` is needed.  (The query itself is neither parseable by the Spec nor "truncated":
-    C14 says nothing about it.) -/
-theorem malformed_name_reply_unparseable :
-    ((dnsParse malformedQuery).bind (dnsRepl { ipDst := some (.v4 [192, 0, 2, 7]) })).any (fun r =>
-      (Spec.parseDns r).isNone) = true ∧
-    (Spec.parseDns malformedQuery).isNone = true ∧ Spec.dnsTruncated malformedQuery = false := by
+theorem malformed_name_silent :
+    (dnsParse malformedQuery).isNone = true ∧ (Spec.parseDns malformedQuery).isNone = true ∧
+    dnsTruncatedAny malformedQuery = true := by
   decide +kernel
 
 /-! ### dispatcher -/
@@ -298,31 +365,49 @@ theorem dns_fallback_silent {cfg : Cfg} {env : Env} {ci : ClientInfo} {p : Bytes
     simp [hs, protoHandle, noMatch, PROTO_HTTP, PROTO_STUN, PROTO_SSH, PROTO_GHOST, PROTO_RPC_TCP, PROTO_RPC_UDP,
       PROTO_SMB1, PROTO_SMB2]
 
-/-- **C14** end to end at `proto::repl`: an IN/A query over UDP to the IPv4 address `a` that completes no
-    signature is answered by the faithful reply. -/
+/-- **C14** end to end at `proto::repl`: an IN/A query — any label layout, any octets inside the labels —
+    over UDP to the IPv4 address `a` that completes no signature is answered by the faithful reply. -/
+theorem dns_c14_full {cfg : Cfg} {env : Env} {ci : ClientInfo} {p a : Bytes} {q : Spec.DMsg} {st st' n : Nat}
+    (hq : inAQueryAny p = some q) (hd : ci.ipDst = some (.v4 a)) (ha : a.length = 4)
+    (hudp : ci.transport = some 17)
+    (h1 : protoTbl.searchNext baseState p = .ok (noMatch, st, n))
+    (h2 : protoTbl.searchNextEnd st = .ok (noMatch, st')) :
+    ∃ r, protoRepl cfg env ci none p = .ok (ci, none, some r) ∧ Spec.dnsReplyOk q r a = true := by
+  obtain ⟨m, r, hm, hr, hok⟩ := dns_reply_faithful_full hq hd ha
+  exact ⟨r, dns_fallback (by simp [hudp]) h1 h2 hm hr, hok⟩
+
+/-- **C14** in the Spec's vocabulary (corollary: `Spec.inAQuery` implies `inAQueryAny`) -/
 theorem dns_c14 {cfg : Cfg} {env : Env} {ci : ClientInfo} {p a : Bytes} {q : Spec.DMsg} {st st' n : Nat}
     (hq : Spec.inAQuery p = some q) (hd : ci.ipDst = some (.v4 a)) (ha : a.length = 4)
     (hudp : ci.transport = some 17)
     (h1 : protoTbl.searchNext baseState p = .ok (noMatch, st, n))
     (h2 : protoTbl.searchNextEnd st = .ok (noMatch, st')) :
-    ∃ r, protoRepl cfg env ci none p = .ok (ci, none, some r) ∧ Spec.dnsReplyOk q r a = true := by
-  obtain ⟨m, r, hm, hr, hok⟩ := dns_reply_faithful hq hd ha
-  exact ⟨r, dns_fallback (by simp [hudp]) h1 h2 hm hr, hok⟩
+    ∃ r, protoRepl cfg env ci none p = .ok (ci, none, some r) ∧ Spec.dnsReplyOk q r a = true :=
+  dns_c14_full (inAQuery_any hq) hd ha hudp h1 h2
 
 /-- … and a non-IN/A question, a truncated message or a response gets nothing at all -/
+theorem dns_c14_silent_full {cfg : Cfg} {env : Env} {ci : ClientInfo} {p : Bytes} {st st' n : Nat}
+    (hudp : ci.transport = some 17)
+    (h1 : protoTbl.searchNext baseState p = .ok (noMatch, st, n))
+    (h2 : protoTbl.searchNextEnd st = .ok (noMatch, st'))
+    (hbad : hasNonInAAny p = true ∨ dnsTruncatedAny p = true ∨ Spec.be16 p 2 / 32768 = 1) :
+    protoRepl cfg env ci none p = .ok (ci, none, none) := by
+  apply dns_fallback_silent (by simp [hudp]) h1 h2
+  rcases hbad with h | h | h
+  · exact dns_non_ina_silent_full ci h
+  · rw [dns_truncated_silent_full h]; rfl
+  · cases hm : dnsParse p with
+    | none => rfl
+    | some m => exact dns_qr1_silent ci h m hm
+
+/-- … in the Spec's vocabulary -/
 theorem dns_c14_silent {cfg : Cfg} {env : Env} {ci : ClientInfo} {p : Bytes} {st st' n : Nat}
     (hudp : ci.transport = some 17)
     (h1 : protoTbl.searchNext baseState p = .ok (noMatch, st, n))
     (h2 : protoTbl.searchNextEnd st = .ok (noMatch, st'))
     (hbad : Spec.hasNonInA p = true ∨ Spec.dnsTruncated p = true ∨ Spec.be16 p 2 / 32768 = 1) :
-    protoRepl cfg env ci none p = .ok (ci, none, none) := by
-  apply dns_fallback_silent (by simp [hudp]) h1 h2
-  rcases hbad with h | h | h
-  · exact dns_non_ina_silent ci h
-  · rw [dns_truncated_silent h]; rfl
-  · cases hm : dnsParse p with
-    | none => rfl
-    | some m => exact dns_qr1_silent ci h m hm
+    protoRepl cfg env ci none p = .ok (ci, none, none) :=
+  dns_c14_silent_full hudp h1 h2 (hbad.imp hasNonInA_any (Or.imp_left dnsTruncated_any))
 
 /-! ### non-vacuity -/
 
@@ -389,6 +474,54 @@ example (cfg : Cfg) (env : Env) : ∀ p ∈ [q1, q3], ∃ q r, Spec.inAQuery p =
       (okIs_eq (e := (noMatch, 1, 45)) (by decide +kernel)) (okIs_eq (e := (noMatch, 1)) (by decide +kernel))
     exact ⟨q, r, hq, h⟩
 
+/-- the query `a\0b IN A` (one 3-octet label `61 00 62`), id 0x1234, RD set:
+    `12 34 01 00 00 01 00 00 00 00 00 00 | 03 61 00 62 00 | 00 01 00 01` -/
+def qNul : Bytes := [0x12, 0x34, 1, 0, 0, 1, 0, 0, 0, 0, 0, 0,   3, 0x61, 0, 0x62, 0,   0, 1, 0, 1]
+
+def ci10 : ClientInfo := { ipDst := some (.v4 [10, 0, 0, 1]), transport := some 17, portDst := some 53 }
+
+/-- `12 34 85 00 00 01 00 01 00 00 00 00 | 03 61 00 62 00 00 01 00 01 | 03 61 00 62 00 00 01 00 01 00 00 a8 c0 00 04 0a 00 00 01` -/
+def qNulReply : Bytes :=
+  [0x12, 0x34, 0x85, 0x00, 0x00, 0x01, 0x00, 0x01, 0x00, 0x00, 0x00, 0x00,
+   0x03, 0x61, 0x00, 0x62, 0x00,   0x00, 0x01, 0x00, 0x01,
+   0x03, 0x61, 0x00, 0x62, 0x00,   0x00, 0x01, 0x00, 0x01,   0x00, 0x00, 0xa8, 0xc0,   0x00, 0x04,
+   0x0a, 0x00, 0x00, 0x01]
+
+/-- sent to 10.0.0.1, `qNul` is answered with `qNulReply` -/
+theorem qNul_reply : (dnsParse qNul).bind (dnsRepl ci10) = some qNulReply := by decide +kernel
+
+/-- it is an IN/A query (the Spec reads the name `03 61 00 62 00`), with a 0x00 inside its label, and that
+    answer is the faithful one, computed -/
+example : (inAQueryAny qNul).map (fun m => m.qd) = some [{ name := [3, 0x61, 0, 0x62, 0], qtype := 1, qclass := 1 }] ∧
+    Spec.labelsNoNul 256 [3, 0x61, 0, 0x62, 0] = false ∧
+    (inAQueryAny qNul).any (fun q => Spec.dnsReplyOk q qNulReply [10, 0, 0, 1]) = true := by
+  decide +kernel
+
+/-- the general theorem `dns_c14_full` instantiated on it: all its hypotheses hold (no signature matched,
+    neither on the 21 bytes nor at end of input), so `proto::repl` answers with the faithful reply — which
+    is `qNulReply` -/
+example (cfg : Cfg) (env : Env) : ∃ q, inAQueryAny qNul = some q ∧
+    protoRepl cfg env ci10 none qNul = .ok (ci10, none, some qNulReply) ∧
+    Spec.dnsReplyOk q qNulReply [10, 0, 0, 1] = true := by
+  obtain ⟨q, hq⟩ := Option.isSome_iff_exists.mp (show (inAQueryAny qNul).isSome = true by decide +kernel)
+  obtain ⟨r, h, hok⟩ := dns_c14_full (cfg := cfg) (env := env) (ci := ci10) hq rfl rfl rfl
+    (okIs_eq (e := (noMatch, 1, 21)) (by decide +kernel)) (okIs_eq (e := (noMatch, 1)) (by decide +kernel))
+  -- the reply the theorem speaks of is the computed one
+  obtain ⟨m, r', hm, hr', _⟩ := dns_reply_faithful_full (ci := ci10) hq rfl rfl
+  have h' := dns_fallback (cfg := cfg) (env := env) (ci := ci10) (by simp [ci10])
+    (okIs_eq (e := (noMatch, 1, 21)) (by decide +kernel)) (okIs_eq (e := (noMatch, 1)) (by decide +kernel)) hm hr'
+  have hval := qNul_reply
+  rw [hm, Option.bind_some, hr'] at hval
+  have e1 : r' = qNulReply := Option.some.inj hval
+  have e2 : r = r' := Option.some.inj (Prod.mk.inj (Prod.mk.inj (Except.ok.inj (h.symm.trans h'))).2).2
+  rw [e2, e1] at h hok
+  exact ⟨q, hq, h, hok⟩
+
+/-- hypotheses of the `…_full` silence theorems: `qNul` asking for TXT; `qNul` cut inside its label (after
+    `03 61 00`) -/
+example :
+    hasNonInAAny (qNul.take 17 ++ [0, 16, 0, 1]) = true ∧ dnsTruncatedAny (qNul.take 15) = true := by decide +kernel
+
 /-- `www.example.com IN TXT` has a non-IN/A question; `q1` cut after 20 bytes is truncated; `q1` with
     QR set is a response: hypotheses of C14.3–5 -/
 example :
@@ -405,6 +538,15 @@ end Masscanned.C14
 
 #print axioms Masscanned.C14.bridge_name
 #print axioms Masscanned.C14.bridge_questions
+#print axioms Masscanned.C14.bridge_rr_name
+#print axioms Masscanned.C14.long_label
+#print axioms Masscanned.C14.any_label
+#print axioms Masscanned.C14.dns_reply_faithful_full
+#print axioms Masscanned.C14.dns_non_ina_silent_full
+#print axioms Masscanned.C14.dns_truncated_silent_full
+#print axioms Masscanned.C14.inAQuery_names_wf_full
+#print axioms Masscanned.C14.dns_c14_full
+#print axioms Masscanned.C14.dns_c14_silent_full
 #print axioms Masscanned.C14.dns_reply_faithful
 #print axioms Masscanned.C14.dns_non_ina_silent
 #print axioms Masscanned.C14.dns_truncated_silent
@@ -412,9 +554,11 @@ end Masscanned.C14
 #print axioms Masscanned.C14.dns_reply_counts
 #print axioms Masscanned.C14.dns_reply_reparses
 #print axioms Masscanned.C14.inAQuery_names_wf
-#print axioms Masscanned.C14.nul_in_label_parse_differs
-#print axioms Masscanned.C14.nul_in_label_reply_unfaithful
-#print axioms Masscanned.C14.malformed_name_reply_unparseable
+#print axioms Masscanned.C14.nul_in_label_parse_agrees
+#print axioms Masscanned.C14.nul_in_label_reply_faithful
+#print axioms Masscanned.C14.long_label_reply_unparseable
+#print axioms Masscanned.C14.malformed_name_silent
+#print axioms Masscanned.C14.qNul_reply
 #print axioms Masscanned.C14.dns_fallback
 #print axioms Masscanned.C14.dns_fallback_needs_transport
 #print axioms Masscanned.C14.dns_fallback_silent
